@@ -101,6 +101,15 @@ type Explorer struct {
 	stop                            int32
 	assertQueries                   int64
 	schedSwitches, schedTransitions int64
+	witnesses                       []Witness
+}
+
+// Witness is the solver's model of one completed path (replayed natively to
+// validate the executor against the real build).
+type Witness struct {
+	Model   map[string]uint64
+	Choices []int
+	Trace   string
 }
 
 func newExplorer(P *Program, fn *ssa.Function, cfg Config) *Explorer {
@@ -216,6 +225,21 @@ func (e *Explorer) runPath(spec pathSpec, solver *Solver) {
 			}
 		}()
 		callSSA(i, nil, 0, e.fn, nil, nil)
+		e.mu.Lock()
+		need := len(e.witnesses) < 3
+		e.mu.Unlock()
+		if need {
+			res, m := i.solver.Check(nil, e.cfg.AssertTimeout, i.tt.vars)
+			if res == "sat" {
+				w := Witness{Model: map[string]uint64{}, Choices: append([]int{}, i.run.choices...), Trace: strings.Join(i.run.samples, "; ")}
+				for _, t := range i.tt.vars {
+					w.Model[t.Name] = m[t.Name]
+				}
+				e.mu.Lock()
+				e.witnesses = append(e.witnesses, w)
+				e.mu.Unlock()
+			}
+		}
 	}()
 	i.sch.killAll()
 	// bookkeeping
@@ -243,7 +267,7 @@ func (e *Explorer) runPath(spec pathSpec, solver *Solver) {
 		e.stubs[s] += n
 	}
 	switch status {
-	case "done":
+	case "done", "done-scope":
 		e.pathsDone++
 		e.assertsDischarged += int64(i.run.asserts)
 		e.assertsTriv += int64(i.run.trivial)
@@ -415,6 +439,23 @@ func (i *interpreter) concretize(t *Term, what string) uint64 {
 		}
 		if i.decide(i.tt.Cmp(OpEq, t, i.tt.Const(t.W, v))) {
 			return v
+		}
+	}
+}
+
+// scopeBegin/scopeEnd implement verifrt.Scope.
+func (i *interpreter) scopeBegin() {
+	i.scopes = append(i.scopes, len(i.run.trace))
+	i.solver.Push()
+}
+
+func (i *interpreter) scopeEnd() {
+	start := i.scopes[len(i.scopes)-1]
+	i.scopes = i.scopes[:len(i.scopes)-1]
+	i.solver.Pop()
+	for _, d := range i.run.trace[start:] {
+		if (d.Kind == 'b' && d.V == 0) || (d.Kind == 'c' && d.V > 0) {
+			panic(pathEnd{"done-scope"})
 		}
 	}
 }
